@@ -43,12 +43,24 @@ func (e *Engine) freshVal(st *State, hint string, t types.Type) Val {
 	}
 	c := e.vc.fresh(hint, e.vc.sortOf(t))
 	e.vc.assume(e.typeInv(c, t))
+	if e.freshResultsAlias {
+		if kindOf(t) == kPtr || kindOf(t) == kMap {
+			e.assumeIn(st, app("<", c, st.top))
+		}
+		if kindOf(t) == kSlice {
+			e.assumeIn(st, app("<", app("sptr", c), st.top))
+		}
+		return Val{S: c, T: t}
+	}
+	// a returned reference is nil or a newly allocated object (results of unmodelled calls are assumed not to
+	// alias memory the caller already holds)
 	if kindOf(t) == kPtr || kindOf(t) == kMap {
-		// a returned reference is either nil or an allocated object
-		e.assumeIn(st, app("<", c, st.top))
+		ref := e.alloc(st)
+		e.assumeIn(st, or(eq(c, "0"), eq(c, ref)))
 	}
 	if kindOf(t) == kSlice {
-		e.assumeIn(st, app("<", app("sptr", c), st.top))
+		ref := e.alloc(st)
+		e.assumeIn(st, or(eq(app("sptr", c), "0"), eq(app("sptr", c), ref)))
 	}
 	return Val{S: c, T: t}
 }
@@ -171,17 +183,118 @@ func (fr *Frame) staticCall(ctx *callCtx, callee *ssa.Function) Val {
 			return fr.pureHavoc(ctx)
 		}
 		if c := e.prog.Contracts[key]; c != nil && callee != e.root {
-			return fr.contractCall(ctx, callee, c)
+			return fr.logRet(ctx, callee, fr.contractCall(ctx, callee, c))
 		}
 		if len(callee.Blocks) > 0 && fr.depth < e.maxInline && !fr.onStack(callee) {
-			return fr.inline(ctx, callee, nil, ctx.args)
+			fr.logCall(ctx, callee)
+			return fr.logRet(ctx, callee, fr.inline(ctx, callee, nil, ctx.args))
 		}
 		e.note("unmodelled", "repo call not inlined (depth/recursion): "+key)
 		fr.logCall(ctx, callee)
 		return fr.havocCall(ctx, true)
 	}
+	if pureLibFunc(name) {
+		e.note("approx", "pure library function without precise spec (result unconstrained, arguments not written): "+name)
+		return fr.pureHavoc(ctx)
+	}
+	if readOnlyStoreOp(name) {
+		// iteration and lookup operations of collections: results unconstrained, stores unchanged; callbacks may
+		// write what they capture
+		e.note("approx", "collections read operation without precise spec (result havocked, store unchanged): "+name)
+		return fr.closureEffectsHavoc(ctx)
+	}
 	e.note("unmodelled", "library call without spec: "+name)
 	return fr.havocCall(ctx, false)
+}
+
+// library functions that do not write through their arguments and have no other effect on modelled state
+var pureLibPrefixes = []string{
+	"github.com/ethereum/go-ethereum/crypto.Keccak256", "encoding/hex.", "strconv.", "crypto/sha256.Sum256",
+	"(github.com/ethereum/go-ethereum/accounts/abi.Arguments).Pack", "(github.com/ethereum/go-ethereum/accounts/abi.Arguments).Unpack",
+	"github.com/ethereum/go-ethereum/accounts/abi.NewType", "strings.", "bytes.Equal", "bytes.Compare", "bytes.HasPrefix", "bytes.TrimPrefix",
+	"(cosmossdk.io/errors.Error).Error", "(*cosmossdk.io/errors.Error).Error", "(*cosmossdk.io/errors.Error).Is", "github.com/ethereum/go-ethereum/common.",
+	"(github.com/ethereum/go-ethereum/common.Address).", "(encoding/binary.bigEndian).Uint", "github.com/cosmos/cosmos-sdk/types.ValAddressFromBech32",
+	"github.com/cosmos/cosmos-sdk/types.ConsAddressFromBech32", "github.com/cosmos/cosmos-sdk/types.ValAddressFromHex", "(time.Time).", "(time.Duration).",
+	"math/big.NewInt", "(*math/big.Int).", "regexp.", "unicode.", "errors.As", "errors.Unwrap", "github.com/ethereum/go-ethereum/crypto.SigToPub",
+	"github.com/ethereum/go-ethereum/crypto.PubkeyToAddress", "github.com/ethereum/go-ethereum/crypto.Ecrecover", "crypto/sha256.", "reflect.DeepEqual",
+	"(github.com/cosmos/cosmos-sdk/types.AccAddress).", "(github.com/cosmos/cosmos-sdk/types.ValAddress).", "(github.com/cosmos/cosmos-sdk/types.ConsAddress).",
+	"(github.com/cosmos/cosmos-sdk/types.Coin).", "(github.com/cosmos/cosmos-sdk/types.Coins).", "(github.com/cosmos/cosmos-sdk/types.DecCoin).",
+	"(cosmossdk.io/math.Int).", "(cosmossdk.io/math.LegacyDec).", "(cosmossdk.io/math.Uint).", "cosmossdk.io/math.",
+	"(github.com/cosmos/cosmos-sdk/x/staking/types.Validator).", "(github.com/cosmos/cosmos-sdk/x/staking/types.Delegation).",
+	"github.com/cosmos/cosmos-sdk/types/errors.", "sort.SearchInts", "sort.SearchStrings", "slices.Contains", "slices.Index",
+}
+
+func pureLibFunc(name string) bool {
+	for _, p := range pureLibPrefixes {
+		if strings.HasPrefix(name, p) {
+			return true
+		}
+	}
+	return false
+}
+
+var readOnlyMethods = map[string]bool{"Walk": true, "Iterate": true, "IterateRaw": true, "MatchExact": true, "Valid": true, "Next": true, "Key": true,
+	"Value": true, "KeyValue": true, "PrimaryKey": true, "FullKey": true, "Close": true, "Keys": true, "Values": true, "KeyValues": true, "PrimaryKeys": true,
+	"CollectValues": true, "CollectKeyValues": true, "Descending": true, "EndInclusive": true, "EndExclusive": true, "StartInclusive": true,
+	"StartExclusive": true, "Prefix": true, "NewPrefixedPairRange": true, "NewPrefixedTripleRange": true, "NewSuperPrefixedTripleRange": true, "PairPrefix": true,
+	"K1": true, "K2": true, "K3": true, "ScanValues": true, "ScanKeyValues": true, "Reference": true}
+
+func readOnlyStoreOp(name string) bool {
+	if !strings.Contains(name, "cosmossdk.io/collections") {
+		return false
+	}
+	return readOnlyMethods[lastName(name)]
+}
+
+
+// applyClosureEffects havocs everything a closure value may write when it is called by unknown code:
+// captured variables are havocked cell by cell, other stores at heap level; returns true if module stores are written.
+func (fr *Frame) applyClosureEffects(st *State, clo *closureVal) bool {
+	e := fr.e
+	ghost := false
+	sub := &Frame{e: e, fn: clo.fn, regs: map[ssa.Value]Val{}, bindings: clo.bindings, iters: map[ssa.Value]*iterVal{}}
+	mods := map[string]*modInfo{}
+	sub.modsOf(clo.fn, nil, 1, mods, true)
+	var ks []string
+	for k := range mods {
+		ks = append(ks, k)
+	}
+	sort.Strings(ks)
+	for _, k := range ks {
+		if k == "G_*" {
+			ghost = true
+			continue
+		}
+		srt, ok := e.heapSorts[k]
+		if !ok {
+			continue
+		}
+		m := mods[k]
+		if m.all {
+			e.setHeap(st, k, srt, e.vc.fresh(k, srt))
+			continue
+		}
+		// element sort of "(Array Int X)"
+		el := strings.TrimSuffix(strings.TrimPrefix(srt, "(Array Int "), ")")
+		for _, r := range m.refs {
+			e.setHeap(st, k, srt, app("store", e.heap(st, k, srt), r, e.vc.fresh("hv", el)))
+		}
+	}
+	return ghost
+}
+
+// closureEffectsHavoc: a pure library call that may invoke the closures passed to it.
+func (fr *Frame) closureEffectsHavoc(ctx *callCtx) Val {
+	e := fr.e
+	for _, a := range ctx.args {
+		if a.Clo == nil {
+			continue
+		}
+		if fr.applyClosureEffects(ctx.st, a.Clo) {
+			e.havocGhost(ctx.st)
+		}
+	}
+	return e.freshVal(ctx.st, "r_"+lastName(ctx.name), ctx.rt)
 }
 
 func (fr *Frame) onStack(fn *ssa.Function) bool {
@@ -214,29 +327,11 @@ func lastName(s string) string {
 func (fr *Frame) havocCall(ctx *callCtx, ghost bool) Val {
 	e := fr.e
 	for i, a := range ctx.args {
-		e.havocReachable(ctx.st, a.T, map[string]bool{})
+		e.havocArg(ctx.st, a)
 		// a closure argument may be called by the callee: everything it can write is havocked
 		if a.Clo != nil {
-			for _, b := range a.Clo.bindings {
-				if b.T != nil {
-					e.havocReachable(ctx.st, b.T, map[string]bool{})
-				}
-			}
-			mods := map[string]*modInfo{}
-			fr.modsOf(a.Clo.fn, nil, 1, mods, false)
-			var ks []string
-			for k := range mods {
-				ks = append(ks, k)
-			}
-			sort.Strings(ks)
-			for _, k := range ks {
-				if k == "G_*" {
-					ghost = true
-					continue
-				}
-				if srt, ok := e.heapSorts[k]; ok {
-					e.setHeap(ctx.st, k, srt, e.vc.fresh(k, srt))
-				}
+			if fr.applyClosureEffects(ctx.st, a.Clo) {
+				ghost = true
 			}
 		}
 		// an unknown operation on a collections store may write it
@@ -272,6 +367,61 @@ func (e *Engine) havocReachable(st *State, t types.Type, seen map[string]bool) {
 	for _, n := range e.reachableHeaps(t) {
 		srt := e.heapSorts[n]
 		e.setHeap(st, n, srt, e.vc.fresh(n, srt))
+	}
+}
+
+// havocArg: an unknown callee may write through the references it is given. The object / backing array /
+// map that the argument itself refers to is havocked precisely (only that cell); anything reachable through
+// references stored inside it is havocked at type level.
+func (e *Engine) havocArg(st *State, v Val) {
+	if v.T == nil || v.S == "" || v.S == "addr" {
+		if v.T != nil {
+			e.havocReachable(st, v.T, map[string]bool{})
+		}
+		return
+	}
+	t := types.Unalias(v.T)
+	switch kindOf(t) {
+	case kSlice:
+		el := t.Underlying().(*types.Slice).Elem()
+		hn, hs := e.vc.arrHeapName(el)
+		h := e.heap(st, hn, hs)
+		e.setHeap(st, hn, hs, app("store", h, app("sptr", v.S), e.vc.fresh("hv", "(Array Int "+e.vc.sortOf(el)+")")))
+		e.havocReachable(st, el, map[string]bool{})
+	case kPtr:
+		el := t.Underlying().(*types.Pointer).Elem()
+		if at, ok := types.Unalias(el).Underlying().(*types.Array); ok {
+			hn, hs := e.vc.arrHeapName(at.Elem())
+			h := e.heap(st, hn, hs)
+			e.setHeap(st, hn, hs, app("store", h, v.S, e.vc.fresh("hv", "(Array Int "+e.vc.sortOf(at.Elem())+")")))
+			return
+		}
+		hn, hs := e.vc.heapName(el)
+		h := e.heap(st, hn, hs)
+		e.setHeap(st, hn, hs, app("store", h, v.S, e.vc.fresh("hv", e.vc.sortOf(el))))
+		if kindOf(el) == kStruct {
+			ss := e.vc.structInfo(el)
+			for _, ft := range ss.ftypes {
+				e.havocReachable(st, ft, map[string]bool{})
+			}
+		}
+	case kMap:
+		mt := t.Underlying().(*types.Map)
+		vn, vs, dn, ds := e.vc.mapHeapName(mt.Key(), mt.Elem())
+		hv, hd := e.heap(st, vn, vs), e.heap(st, dn, ds)
+		e.setHeap(st, vn, vs, app("store", hv, v.S, e.vc.fresh("hv", fmt.Sprintf("(Array %s %s)", e.vc.sortOf(mt.Key()), e.vc.sortOf(mt.Elem())))))
+		e.setHeap(st, dn, ds, app("store", hd, v.S, e.vc.fresh("hv", fmt.Sprintf("(Array %s Bool)", e.vc.sortOf(mt.Key())))))
+		e.havocReachable(st, mt.Elem(), map[string]bool{})
+	case kStruct:
+		ss := e.vc.structInfo(t)
+		for i, ft := range ss.ftypes {
+			switch kindOf(ft) {
+			case kSlice, kPtr, kMap, kStruct:
+				e.havocArg(st, Val{S: app(ss.fields[i], v.S), T: ft})
+			}
+		}
+	case kIface:
+		e.note("approx", "interface-typed arguments of unmodelled calls are assumed not to be written through")
 	}
 }
 
@@ -337,6 +487,20 @@ func (e *Engine) callMods(fr *Frame, fn *ssa.Function, x ssa.CallInstruction, de
 			return // specs without a libMods entry are pure w.r.t. the modelled heaps
 		}
 		if prefixSpec(name) != nil || isDropped(name) {
+			return
+		}
+		if pureLibFunc(name) {
+			return
+		}
+		if readOnlyStoreOp(name) {
+			for _, a := range cc.Args {
+				if mc, ok := a.(*ssa.MakeClosure); ok {
+					fr.modsOf(mc.Fn.(*ssa.Function), nil, depth+1, mods, false)
+					for _, b := range mc.Bindings {
+						addType(b.Type())
+					}
+				}
+			}
 			return
 		}
 		if strings.HasPrefix(fnPkgPath(callee), modPath) {
@@ -531,6 +695,35 @@ func (fr *Frame) inline(ctx *callCtx, callee *ssa.Function, bindings []Val, args
 
 // ---------- contract calls ----------
 
+// logRet records the results of a call of a layer function (readable in contracts as ret(F, i)).
+func (fr *Frame) logRet(ctx *callCtx, callee *ssa.Function, r Val) Val {
+	e := fr.e
+	if e.vc.inline {
+		return r
+	}
+	rts := resultTypes(callee.Signature)
+	for i, t := range rts {
+		v := r
+		if len(rts) != 1 {
+			if i >= len(r.Tup) {
+				continue
+			}
+			v = r.Tup[i]
+		}
+		if v.S == "" || v.S == "addr" || len(v.Tup) > 0 {
+			continue
+		}
+		srt := e.vc.sortOf(t)
+		if srt == "GoTuple" {
+			continue
+		}
+		hn := fmt.Sprintf("callret_%s_%d", mangle(callee.Name()), i)
+		e.setHeap(ctx.st, hn, srt, v.S)
+		e.callArgTypes[hn] = t
+	}
+	return r
+}
+
 // logCall records that a layer function was called and with which arguments (ghost call log, readable in
 // contracts as called(F) and arg(F, param)).
 func (fr *Frame) logCall(ctx *callCtx, callee *ssa.Function) {
@@ -602,6 +795,9 @@ func (fr *Frame) contractCall(ctx *callCtx, callee *ssa.Function, c *Contract) V
 	}
 	envPost := &evalEnv{e: e, st: st, old: pre, lookup: func(n string) (Val, bool) { v, ok := rn[n]; return v, ok }}
 	for _, en := range c.Ensures {
+		if mentionsCallLog(en.expr) {
+			continue // observations about the callee's own calls are not visible to its callers
+		}
 		f := e.evalBool(en.expr, envPost)
 		if os.Getenv("GOVC_DEBUG") != "" {
 			fmt.Fprintf(os.Stderr, "ENSURES %s [%s] tag=%d inline=%v: %.200s\n", funcKey(callee), en.label, e.vc.curTag, e.vc.inline, f)
@@ -760,4 +956,32 @@ func (fr *Frame) copyOp(ctx *callCtx) Val {
 			eq(app("seq_of", newArr, app("soff", dst.S), n), app("seq_of", srcArr, srcOff, n))))
 	}
 	return Val{S: n, T: ctx.rt}
+}
+
+// mentionsCallLog: the expression refers to the call log (arg/ret/called of calls made inside the function).
+func mentionsCallLog(x Expr) bool {
+	switch y := x.(type) {
+	case *ECall:
+		if y.Fn == "arg" || y.Fn == "ret" || y.Fn == "called" {
+			return true
+		}
+		for _, a := range y.Args {
+			if mentionsCallLog(a) {
+				return true
+			}
+		}
+	case *EUn:
+		return mentionsCallLog(y.X)
+	case *EBin:
+		return mentionsCallLog(y.X) || mentionsCallLog(y.Y)
+	case *ECond:
+		return mentionsCallLog(y.C) || mentionsCallLog(y.A) || mentionsCallLog(y.B)
+	case *ESel:
+		return mentionsCallLog(y.X)
+	case *EIndex:
+		return mentionsCallLog(y.X) || mentionsCallLog(y.I)
+	case *EQuant:
+		return mentionsCallLog(y.Body) || (y.Lo != nil && (mentionsCallLog(y.Lo) || mentionsCallLog(y.Hi)))
+	}
+	return false
 }
